@@ -8,6 +8,8 @@ import (
 	"go/types"
 	"math/big"
 	"strings"
+
+	"golang.org/x/tools/go/ssa"
 )
 
 type NilV struct{}
@@ -202,6 +204,12 @@ func (e *Env) ident(name string) Val {
 		if obj := e.pkg.Types.Scope().Lookup(name); obj != nil {
 			if c, ok := obj.(*types.Const); ok {
 				return e.constVal(c)
+			}
+		}
+		// package-level variable (constant tables): its value in the environment's state
+		if e.pkg.SSA != nil {
+			if g, ok := e.pkg.SSA.Members[name].(*ssa.Global); ok {
+				return e.fx.loadPtr(e.st, e.fx.globalPtr(g))
 			}
 		}
 	}
@@ -662,6 +670,25 @@ func (e *Env) call(x *CallE) Val {
 		}
 		return Sc{Or(Not(Eq(a.Base, b.Base)), Le(Add(a.Off, a.Cap), b.Off, true), Le(Add(b.Off, b.Cap), a.Off, true),
 			Eq(a.Cap, fx.idx(0)), Eq(b.Cap, fx.idx(0))), boolTyp}
+	case "newlines":
+		// newlines(s, a, b): number of '\n' bytes among s[a..b)
+		if fx.bv {
+			cfail("newlines is for mode int")
+		}
+		s, ok := e.eval(x.Args[0]).(StrV)
+		if !ok || len(x.Args) != 3 {
+			cfail("newlines(s, a, b) needs a string and two positions")
+		}
+		a, b := e.intT(x.Args[1]), e.intT(x.Args[2])
+		return Sc{fx.newlinesTerm(s.Base, Add(s.Off, a), Add(s.Off, b)), types.Typ[types.Int]}
+	case "otherarray":
+		// otherarray(a, b): the two slices live in different backing arrays (or one has no storage)
+		a, ok1 := e.eval(x.Args[0]).(SliceV)
+		b, ok2 := e.eval(x.Args[1]).(SliceV)
+		if !ok1 || !ok2 {
+			cfail("otherarray needs slices")
+		}
+		return Sc{Or(Not(Eq(a.Base, b.Base)), Eq(a.Cap, fx.idx(0)), Eq(b.Cap, fx.idx(0))), boolTyp}
 	case "fresh":
 		switch v := e.eval(x.Args[0]).(type) {
 		case SliceV:
